@@ -390,6 +390,45 @@ def _tup(x):
     return tuple(x)
 
 
+def sprinkle_whitespace(rng, pcode: str) -> str:
+    """Comment and blank lines after random lines (at that line's indentation) and 0-3 of them at the very end,
+    at indentations down from the last line's: ends of nested scopes and of the method."""
+    out: list[str] = []
+    lines = [ln for ln in pcode.split("\n")]
+    for ln in lines:
+        out.append(ln)
+        if ln.strip() and rng.random() < 0.2:
+            ind = len(ln) - len(ln.lstrip(" "))
+            opener = ln.strip().split(":")[0].lstrip("0123456789. ") in ("Block", "Watch", "Alarm", "Macro")
+            out.append("" if rng.random() < 0.3 else " " * (ind + (4 if opener and rng.random() < 0.5 else 0)) + "# note")
+    last = next((ln for ln in reversed(out) if ln.strip()), "")
+    ind = len(last) - len(last.lstrip(" "))
+    for _ in range(rng.randrange(0, 4)):
+        out.append("" if rng.random() < 0.3 else " " * ind + "# end note")
+        if ind > 0 and rng.random() < 0.5:
+            ind -= 4
+    return "\n".join(out)
+
+
+def ws_flag_case(pcode: str) -> tuple[list[str], list[str]]:
+    """(model op lines, implementation answer) for the analyzer's has_only_trailing_whitespace bits, as the
+    method manager installs them (set_method -> _apply_analysis)."""
+    import openpectus.lang.model.ast as p
+    from harness.interp import Harness
+    h = Harness(pcode)
+    nodes = h.mm.program.get_all_nodes()
+    idx = {n.id: i for i, n in enumerate(nodes)}
+    lines, outs = [], []
+    for i, n in enumerate(nodes):
+        ws = isinstance(n, p.WhitespaceNode)
+        lines.append(f"wnode\t{i}\t{idx[n.parent.id] if n.parent is not None else -1}\t{n.position.line}\t{int(ws)}")
+        outs.append("ok")
+    lines.append("flags")
+    fl = [f"{i}:{int(bool(n.has_only_trailing_whitespace))}" for i, n in enumerate(nodes) if isinstance(n, p.WhitespaceNode)]
+    outs.append(",".join(fl) or "-")
+    return lines, outs
+
+
 def gen_oracle_cases(ctx: Check, n: int) -> list[dict]:
     from harness.gen_pcode import gen_program
     from harness.macro_gen import gen_acyclic, gen_alarm_repeat, gen_empty_openers, pcode_of
@@ -423,6 +462,9 @@ def gen_oracle_cases(ctx: Check, n: int) -> list[dict]:
         else:
             pcode, _ = gen_program(rng, features=FEATURES, max_lines=14)
             ctx.count("oracle:all-structures")
+        if rng.random() < 0.3:
+            pcode = sprinkle_whitespace(rng, pcode)
+            ctx.count("oracle:with-sprinkled-comment-and-blank-lines")
         plan = [[(f"T{rng.randrange(3)}", rng.randrange(4))] if rng.random() < 0.3 else [] for _ in range(70)]
         out.append({"pcode": pcode, "ticks": 70, "plan": plan})
     return out
@@ -472,11 +514,33 @@ def run(ctx: Check) -> int:
     cases, impl_out, model_out = m3_stream(ctx, "interp-m3", ctx.n(110, 12000), features=FEATURES, extra_cases=extra)
     tm["m3-stream"] = round(time.time() - t0 - sum(tm.values()), 1)
     if model_out:
-        lines_of = {id(c): run_case(c)[0] for c in cases[:60]}
-        sub = cases[:60]
-        ctx.selftest("interp-m3", "Interp", sub, lambda c: _swap_marks(lines_of[id(c)]), model_out[:60])
+        lines_of = {id(c): run_case(c)[0] for c in cases[:30]}
+        sub = cases[:30]
+        ctx.selftest("interp-m3", "Interp", sub, lambda c: _swap_marks(lines_of[id(c)]), model_out[:30])
     m3_stream(ctx, "interp-m3-malformed", ctx.n(25, 2500), features=FEATURES, malformed=True)
     tm["selftest+malformed"] = round(time.time() - t0 - sum(tm.values()), 1)
+    # the analyzer's trailing-whitespace bits (an input of the M3 model) against their own model
+    wcases = [c["pcode"] for c in gen_oracle_cases(ctx, ctx.n(100, 4000)) if "pcode" in c]
+    wcases = [sprinkle_whitespace(rng, x) if rng.random() < 0.7 else x for x in wcases]
+    wcache: dict[str, tuple[list[str], list[str]]] = {}
+
+    def wboth(x):
+        if x not in wcache:
+            try:
+                wcache[x] = ws_flag_case(x)
+            except Exception as e:
+                wcache[x] = ([], [f"harness-exception:{type(e).__name__}:{e}"])
+        return wcache[x]
+    wout, wmout = ctx.correspond("trailing-whitespace-flag", "TrailingWs", wcases, lambda x: wboth(x)[0],
+                                 lambda x: wboth(x)[1], nontrivial=lambda x, o: any(":1" in y for y in o))
+    if wmout:
+        # self-test: a model that flags whitespace nodes of the top level only must be told apart
+        def top_only(x):
+            ls = list(wboth(x)[0])
+            return [("wnode\t" + "\t".join(f.split("\t")[1:4]) + "\t0"
+                     if f.startswith("wnode") and f.split("\t")[4] == "1" and f.split("\t")[2] != "0" else f) for f in ls]
+        ctx.selftest("trailing-whitespace-flag", "TrailingWs", wcases, top_only, wmout)
+    tm["ws-flag-stream"] = round(time.time() - t0 - sum(tm.values()), 1)
     ocases = [c for c in load_corpus("C02") if "ticks" in c or "items" in c] + gen_oracle_cases(ctx, ctx.n(250, 20000))
     ctx.monitor(ocases, oracle_case, impl_timeout=60)
     tm["oracle"] = round(time.time() - t0 - sum(tm.values()), 1)
